@@ -253,7 +253,7 @@ fn build_partial_eq_expr(
     wcb: &mut WhereClauseBuilder,
 ) -> Result<TokenStream> {
     let op = CompareOp::PartialEq;
-    let fn_ident = field.make_ident("__eq_");
+    let fn_ident = field.make_ident("__eq");
     let this = source.self_of(field);
     let other = source.other_of(field);
     let cmp = &field.hattrs.cmp;
@@ -517,7 +517,7 @@ fn build_partial_ord_expr(
     wcb: &mut WhereClauseBuilder,
 ) -> Result<TokenStream> {
     let op = CompareOp::PartialOrd;
-    let fn_ident = field.make_ident("__partial_ord_");
+    let fn_ident = field.make_ident("__partial_ord");
     let this = source.self_of(field);
     let other = source.other_of(field);
     let cmp = &field.hattrs.cmp;
@@ -656,7 +656,7 @@ fn build_ord_expr(
     wcb: &mut WhereClauseBuilder,
 ) -> Result<TokenStream> {
     let op = CompareOp::Ord;
-    let fn_ident = field.make_ident("__ord_");
+    let fn_ident = field.make_ident("__ord");
     let this = source.self_of(field);
     let other = source.other_of(field);
     let cmp = &field.hattrs.cmp;
@@ -755,7 +755,7 @@ fn build_hash_expr(
     wcb: &mut WhereClauseBuilder,
 ) -> Result<TokenStream> {
     let op = CompareOp::Hash;
-    let fn_ident = field.make_ident("__hash_");
+    let fn_ident = field.make_ident("__hash");
     let this = source.self_of(field);
     let cmp = &field.hattrs.cmp;
 
